@@ -1,87 +1,181 @@
-(* Proofs about NV.Bcf.Genotype. *)
+(* Proofs about NV.Bcf.Genotype (the repaired writer: padding after the alleles, phase bit kept on
+   missing alleles, checked allele arithmetic). *)
 From Coq Require Import ZArith NArith List Bool Lia ZifyBool ZifyNat ZifyN.
 From NV Require Import Bcf.Ints Bcf.IntsProofs Bcf.Typed Bcf.TypedProofs Bcf.Genotype.
 Import ListNotations.
 Open Scope Z_scope.
+Ltac Zify.zify_post_hook ::= Z.div_mod_to_equations.
 
-(* every representable allele (index 0..62, either phasing; missing unphased) survives encode /
-   parse: exhaustive over the finite domain *)
-Definition allele_ok (a : allele) : bool :=
-  match enc_allele a with
-  | Ok v =>
-    (0 <=? v) && (v <=? 127) &&
-    match parse_gt [v] with
-    | ROk [(p, ph)] =>
-      match p, fst a with
-      | Some x, Some y => (x =? y) && Bool.eqb ph (snd a)
-      | None, None => Bool.eqb ph (snd a)
-      | _, _ => false
-      end
-    | _ => false
-    end
-  | _ => false
-  end.
+(* alleles the Int8 genotype encoding can hold: index 0..62 or missing, either phasing *)
+Definition allele_valid (a : allele) : Prop :=
+  match fst a with Some p => 0 <= p <= 62 | None => True end.
 
-Definition all_alleles : list allele :=
-  (None, false) :: flat_map (fun p => [(Some p, false); (Some p, true)]) (zrange 0 63).
+Definition code (a : allele) : Z :=
+  match fst a with Some p => (p + 1) * 2 | None => 0 end + (if snd a then 1 else 0).
 
-Lemma allele_roundtrip_exhaustive : forallb allele_ok all_alleles = true.
-Proof. vm_compute. reflexivity. Qed.
-
-Lemma allele_roundtrip : forall p ph, 0 <= p <= 62 -> allele_ok (Some p, ph) = true.
+Lemma enc_allele_valid : forall a, allele_valid a -> enc_allele a = Ok (code a) /\ 0 <= code a <= 127.
 Proof.
-  intros p ph H. pose proof allele_roundtrip_exhaustive as E. rewrite forallb_forall in E.
-  apply E. right. apply in_flat_map. exists p. split; [apply in_zrange; lia|].
-  destruct ph; cbn; tauto.
+  intros [[p|] ph] H; unfold allele_valid, enc_allele, code in *; cbn [fst snd] in *.
+  - destruct (127 <? p) eqn:E1; [lia|]. destruct (63 <=? p) eqn:E2; [lia|].
+    split; [reflexivity|destruct ph; lia].
+  - split; [reflexivity|destruct ph; lia].
 Qed.
 
-(* what the series-level statement would be (NOT proved in general; the model refutes it for
-   mixed ploidy and for phased missing alleles, see below) *)
-Definition genotype_roundtrip_full_statement : Prop :=
-  forall gs : list genotype,
-    (forall g a, In g gs -> In a g -> match fst a with Some p => 0 <= p <= 62 | None => True end) ->
-    gs <> [] -> (forall g, In g gs -> g <> []) ->
-    exists bs, enc_gt gs = Ok bs /\ dec_gt (length gs) bs = ROk (map Some gs).
-
-(* mixed ploidy 2 / 3: the padding is emitted once per allele *)
-Lemma genotype_mixed_ploidy_refuted :
-  exists gs bs, enc_gt gs = Ok bs /\ dec_gt (length gs) bs <> ROk (map Some gs).
+Lemma map_res_ok : forall {A B} (f : A -> res B) (g : A -> B) l,
+  (forall x, In x l -> f x = Ok (g x)) -> map_res f l = Ok (map g l).
 Proof.
-  exists [[(Some 0, false); (Some 1, false)]; [(Some 0, false); (Some 1, false); (Some 2, false)]].
-  eexists. split; [vm_compute; reflexivity|]. vm_compute. discriminate.
+  induction l as [|x l IH]; intros H; [reflexivity|].
+  cbn [map_res map]. rewrite (H x (or_introl eq_refl)). cbn [bind].
+  rewrite IH by (intros y Hy; apply H; right; exact Hy). reflexivity.
 Qed.
 
-(* `.|.`: the phase of a missing allele is dropped *)
-Lemma genotype_missing_phase_refuted :
-  exists gs bs, enc_gt gs = Ok bs /\ dec_gt (length gs) bs <> ROk (map Some gs).
+(* one allele read back by parse_genotype_values *)
+Lemma parse_code : forall a r, allele_valid a ->
+  parse_gt (code a :: r) = rbind (parse_gt r) (fun l => ROk (a :: l)).
 Proof.
-  exists [[(None, true); (None, true)]].
-  eexists. split; [vm_compute; reflexivity|]. vm_compute. discriminate.
+  intros a r H. destruct (enc_allele_valid a H) as [_ R].
+  cbn [parse_gt]. rewrite classify_value by (unfold min_value; cbn; lia).
+  destruct a as [[p|] ph]; unfold allele_valid, code in *; cbn [fst snd] in *.
+  - destruct ph.
+    + replace (((p + 1) * 2 + 1) / 2 - 1) with p by lia.
+      replace (((p + 1) * 2 + 1) mod 2) with 1 by lia.
+      destruct (p <? -1) eqn:E1; [lia|]. destruct (p =? -1) eqn:E2; [lia|]. reflexivity.
+    + replace (((p + 1) * 2 + 0) / 2 - 1) with p by lia.
+      replace (((p + 1) * 2 + 0) mod 2) with 0 by lia.
+      destruct (p <? -1) eqn:E1; [lia|]. destruct (p =? -1) eqn:E2; [lia|]. reflexivity.
+  - destruct ph; reflexivity.
 Qed.
 
-Lemma genotype_refutes_full_statement : ~ genotype_roundtrip_full_statement.
+Lemma parse_codes : forall g tail, (forall a, In a g -> allele_valid a) ->
+  parse_gt (map code g ++ tail) = rbind (parse_gt tail) (fun l => ROk (g ++ l)).
 Proof.
-  intros F.
-  destruct (F [[(Some 0, false); (Some 1, false)]; [(Some 0, false); (Some 1, false); (Some 2, false)]])
-    as [bs [E D]].
-  - intros g a Hg Ha. cbn in Hg. destruct Hg as [Eg|[Eg|[]]]; subst g; cbn in Ha;
-      repeat (destruct Ha as [Ea|Ha]; [subst a; cbn; lia|]); destruct Ha.
-  - discriminate.
-  - intros g Hg. cbn in Hg. destruct Hg as [Eg|[Eg|[]]]; subst g; discriminate.
-  - vm_compute in E. inversion E. subst bs. vm_compute in D. discriminate.
+  induction g as [|a g IH]; intros tail H.
+  - cbn [map app]. destruct (parse_gt tail); reflexivity.
+  - cbn [map app]. rewrite parse_code by (apply H; left; reflexivity).
+    rewrite IH by (intros b Hb; apply H; right; exact Hb).
+    destruct (parse_gt tail); reflexivity.
 Qed.
 
-(* allele index 127: overflow panic; 63..126 and > 127: errors *)
-Lemma genotype_allele_127_panics : enc_gt [[(Some 127, false)]] = Panic.
-Proof. vm_compute. reflexivity. Qed.
+Lemma parse_pad : forall k, parse_gt (repeat (-127) k) = ROk [].
+Proof. intros [|k]; reflexivity. Qed.
 
-Lemma genotype_allele_63_is_error : enc_gt [[(Some 63, false)]] = ErrInput.
-Proof. vm_compute. reflexivity. Qed.
+(* the bytes of one sample *)
+Definition sbytes (m : nat) (g : genotype) : list N :=
+  map Z.to_N (map code g) ++ repeat 129%N (m - length g).
 
-(* concrete equal-ploidy and haploid/diploid series through the whole encoder / decoder *)
+Lemma gt_sample_bytes_ok : forall m g, (forall a, In a g -> allele_valid a) ->
+  gt_sample_bytes m (map code g) = Ok (sbytes m g).
+Proof.
+  intros m g H. unfold gt_sample_bytes, sbytes.
+  rewrite (map_res_ok _ Z.to_N).
+  - cbn [bind]. rewrite map_length. reflexivity.
+  - intros x Hx. apply in_map_iff in Hx. destruct Hx as [a [E Ha]]. subst x.
+    destruct (enc_allele_valid a (H a Ha)) as [_ R].
+    destruct (code a <? 0) eqn:E; [lia|reflexivity].
+Qed.
+
+Lemma chunks1 : forall (bytes rest : list N),
+  chunks (length bytes) 1 (bytes ++ rest) = Some (map (fun b => [b]) bytes, rest).
+Proof.
+  induction bytes as [|b bytes IH]; intros rest; [reflexivity|].
+  cbn [length chunks app]. change (b :: bytes ++ rest) with ([b] ++ (bytes ++ rest)).
+  rewrite take_app by reflexivity. rewrite IH. reflexivity.
+Qed.
+
+Lemma dec_singletons : forall raw k, (forall v, In v raw -> 0 <= v <= 127) ->
+  map (dec_int W8) (map (fun b => [b]) (map Z.to_N raw ++ repeat 129%N k)) = raw ++ repeat (-127) k.
+Proof.
+  intros raw k H. rewrite map_app, map_app. f_equal.
+  - induction raw as [|v raw IH]; [reflexivity|].
+    cbn [map]. rewrite IH by (intros x Hx; apply H; right; exact Hx). f_equal.
+    specialize (H v (or_introl eq_refl)). unfold dec_int, to_signed. cbn [le_val wmax wmod].
+    rewrite Z2N.id by lia. destruct (v + 256 * 0 <=? 127) eqn:E; lia.
+  - induction k as [|k IH]; [reflexivity|]. cbn [repeat map]. rewrite IH. reflexivity.
+Qed.
+
+Lemma sbytes_length : forall m g, (length g <= m)%nat -> length (sbytes m g) = m.
+Proof. intros m g H. unfold sbytes. rewrite app_length, !map_length, repeat_length. lia. Qed.
+
+(* the whole series for ANY common length m that is at least every ploidy *)
+Lemma gt_series_roundtrip : forall m gs rest,
+  (forall g a, In g gs -> In a g -> allele_valid a) ->
+  (forall g, In g gs -> (length g <= m)%nat) ->
+  dec_gt_samples (length gs) m (concat (map (sbytes m) gs) ++ rest) = ROk (map Some gs).
+Proof.
+  induction gs as [|g gs IH]; intros rest Hv Hl; [reflexivity|].
+  cbn [length dec_gt_samples map concat]. rewrite <- app_assoc.
+  pose proof (sbytes_length m g (Hl g (or_introl eq_refl))) as Len.
+  rewrite <- Len at 1. rewrite chunks1. unfold sbytes at 1.
+  rewrite dec_singletons.
+  - rewrite parse_codes by (intros a Ha; apply (Hv g a (or_introl eq_refl) Ha)).
+    rewrite parse_pad. cbn [rbind]. rewrite app_nil_r.
+    rewrite IH; [reflexivity| |].
+    + intros g' a Hg Ha. apply (Hv g' a (or_intror Hg) Ha).
+    + intros g' Hg. apply Hl. right. exact Hg.
+  - intros v Hin. apply in_map_iff in Hin. destruct Hin as [a [E Ha]]. subst v.
+    apply (enc_allele_valid a (Hv g a (or_introl eq_refl) Ha)).
+Qed.
+
+Lemma fold_max_length_ge : forall {A} (ls : list (list A)) m0,
+  (m0 <= fold_left (fun m r => Nat.max m (length r)) ls m0)%nat /\
+  (forall l, In l ls -> (length l <= fold_left (fun m r => Nat.max m (length r)) ls m0)%nat).
+Proof.
+  intros A. induction ls as [|l ls IH]; intros m0; cbn [fold_left]; [split; [lia|intros l []]|].
+  destruct (IH (Nat.max m0 (length l))) as [P Q]. split; [lia|].
+  intros l' [E|Hl']; [subst l'; lia|apply Q; exact Hl'].
+Qed.
+
+(* bcf_genotype_roundtrip: any number of samples, any mix of ploidies, missing alleles with either
+   phasing, allele indices 0..62, through the writer's own length computation *)
+Lemma genotype_roundtrip : forall gs,
+  (forall g a, In g gs -> In a g -> allele_valid a) ->
+  (1 <= gt_max_len (map (map code) gs))%nat ->
+  Z.of_nat (gt_max_len (map (map code) gs)) <= 2147483647 ->
+  exists bs, enc_gt gs = Ok bs /\ dec_gt (length gs) bs = ROk (map Some gs).
+Proof.
+  intros gs Hv Hm1 Hm2. unfold enc_gt.
+  rewrite (map_res_ok _ (map code)).
+  2:{ intros g Hg. apply map_res_ok. intros a Ha. apply (enc_allele_valid a (Hv g a Hg Ha)). }
+  cbn [bind]. set (m := gt_max_len (map (map code) gs)) in *.
+  destruct (descriptor_roundtrip 1 (Z.of_nat m) (concat (map (sbytes m) gs))) as [d [Ed Rd]];
+    [reflexivity|lia|].
+  rewrite Ed. cbn [bind].
+  rewrite (map_res_ok _ (fun raw => map Z.to_N raw ++ repeat 129%N (m - length raw))).
+  2:{ intros raw Hr. apply in_map_iff in Hr. destruct Hr as [g [E Hg]]. subst raw.
+      rewrite gt_sample_bytes_ok by (intros a Ha; apply (Hv g a Hg Ha)).
+      unfold sbytes. rewrite map_length. reflexivity. }
+  cbn [bind]. eexists. split; [reflexivity|].
+  rewrite map_map.
+  assert (map (fun x => map Z.to_N (map code x) ++ repeat 129%N (m - length (map code x))) gs
+          = map (sbytes m) gs) as Eq
+    by (apply map_ext; intros g; unfold sbytes; rewrite map_length; reflexivity).
+  rewrite Eq. unfold dec_gt. rewrite Rd. cbn [Z.eqb Pos.eqb].
+  assert (Z.of_nat m =? 0 = false) as E0 by lia. rewrite E0. rewrite Nat2Z.id.
+  rewrite <- (app_nil_r (concat _)). apply gt_series_roundtrip; [exact Hv|].
+  intros g Hg. subst m. unfold gt_max_len.
+  pose proof (proj2 (fold_max_length_ge (map (map code) gs) 0%nat) (map code g)) as Q.
+  rewrite map_length in Q. apply Q. apply in_map. exact Hg.
+Qed.
+
+(* allele indices that do not fit are errors, never panics or other values *)
+Lemma genotype_allele_too_large_is_error : forall p ph, 63 <= p ->
+  enc_gt [[(Some p, ph)]] = ErrInput \/ enc_gt [[(Some p, ph)]] = ErrData.
+Proof.
+  intros p ph H. unfold enc_gt. cbn [map_res]. unfold enc_allele. cbn [fst snd].
+  destruct (127 <? p) eqn:E1; [right; reflexivity|].
+  destruct (63 <=? p) eqn:E2; [left; reflexivity|lia].
+Qed.
+
+(* the cases that failed before the repairs *)
 Example genotype_examples :
-  (exists bs, enc_gt [[(Some 0, false); (Some 1, true)]; [(None, false); (Some 62, false)]] = Ok bs /\
-     dec_gt 2 bs = ROk [Some [(Some 0, false); (Some 1, true)]; Some [(None, false); (Some 62, false)]]) /\
-  (exists bs, enc_gt [[(Some 1, true)]; [(Some 0, false); (Some 1, false); (Some 2, true)]] = Ok bs /\
-     dec_gt 2 bs = ROk [Some [(Some 1, true)]; Some [(Some 0, false); (Some 1, false); (Some 2, true)]]).
-Proof. split; eexists; (split; [vm_compute; reflexivity|]); vm_compute; reflexivity. Qed.
+  (exists bs, enc_gt [[(Some 0, false); (Some 1, false)]; [(Some 0, false); (Some 1, false); (Some 2, false)]] = Ok bs /\
+     dec_gt 2 bs = ROk [Some [(Some 0, false); (Some 1, false)]; Some [(Some 0, false); (Some 1, false); (Some 2, false)]]) /\
+  (exists bs, enc_gt [[(None, true); (None, true)]] = Ok bs /\
+     dec_gt 1 bs = ROk [Some [(None, true); (None, true)]]) /\
+  enc_gt [[(Some 127, false)]] = ErrInput.
+Proof.
+  split; [|split].
+  - eexists. split; [vm_compute; reflexivity|]. vm_compute. reflexivity.
+  - eexists. split; [vm_compute; reflexivity|]. vm_compute. reflexivity.
+  - vm_compute. reflexivity.
+Qed.
